@@ -12,8 +12,20 @@ counts.  Its members are every way the framework knows to write that class down:
             f.replace(X, a) of the member that holds a placeholder X for one entry, and
             formula(d) of a dict object that was already used for another formula and then
             updated in place by the caller
+    nested  (block `nested`) groups inside groups, 2 and 3 deep, multiplier 1, 2, 3 or 0.5 at every level,
+            groups of a single leaf or of nothing but another group included (mc.ref.hill.nestings): as a
+            nested list, as a parsed string, as operators m*(f + n*(g + h)), and as operators with every
+            operand observed (.atoms, .hill, str) before it is used
+The expected composition of a class is the check's OWN count of what it built (the entries of the class;
+for a nested tree: leaf count x the multipliers of ALL enclosing groups, exact Fractions, mc.ref.hill.totals)
+- never the library's .atoms.
 Oracle per member f (h = f.hill):
+    (0) f.atoms == the expected composition.  If it is not: the library's structure of f is counted with the
+        check's own counter; if that denotes the class, the constructor did its work and the library's
+        count of its own structure is wrong              atoms-differ-from-structure:<flat|groups|groups-inside-groups>
+        (otherwise the member was not built as intended - C01 / C02 - and is skipped, see below)
     (a) h.atoms == f.atoms, atoms compared as OBJECTS                      hill-atoms-differ[:cause]
+    (a') the counts as listed in h.structure == the expected composition   hill-lists-other-counts-than-the-formula-has
     (b) h is a flat list of distinct atoms in an order that breaks none of the rules of the
         statement (mc.ref.hill.must_precede; pairs the statement leaves open are not judged)
     (c) canonicity: h == h0 and h0 == h and str(h) == str(h0) for the first member's h0
@@ -24,13 +36,15 @@ Oracle per member f (h = f.hill):
 Members whose own atoms are not the intended totals (a parser / operator defect: C01, C02) are
 not members of the class: they are skipped and reported as a cap.
 
-Three blocks of classes:
+Blocks of classes:
     main     the design's alphabet x counts {1, 2, 0.5}, n <= 3 / 4 entries, public table
     special  the alphabet around the special symbols D and T (C, H, D, T in every spelling, their
              ions, symbols alphabetically before / between / after C, D, H, T), on THREE tables in
              one process: the public one, a private one with the same data and a private one with
              edited masses and densities - in all six orders (rotating with the class)
-    tables   the main alphabet, n <= 2, on the same three tables in the same way"""
+    tables   the main alphabet, n <= 2, on the same three tables in the same way
+    nested   trees of 1-4 leaves with groups nested 2-3 deep (4 in the thorough tier), public table; the class
+             of a tree is the multiset of its own totals, its first member the flat spelling of the totals"""
 import itertools
 import os
 from ..common import Acc, load_pt, close, chunks, rotate, jdump, MachineryError
@@ -109,6 +123,18 @@ META = dict(
           "every intermediate before use), and the derived members: formula(f) of a member (plain, after .hill / str() "
           "/ .atoms were read, of its Hill form), f.replace(X, a) for every entry a (X a placeholder atom of the same "
           "table; plain and after .hill was read), formula(d) of a dict object used before and updated in place.  "
+          "NESTED = trees over 1-4 leaves (leaf = spelling x count {1, 2, 0.5}) whose groups are nested up to 3 deep "
+          "(4 in the thorough tier) with a multiplier from {1, 2, 3, 0.5} at EVERY level (the two largest sets of "
+          "shapes of the thorough tier: {2, 3, 0.5}), groups that hold a single "
+          "leaf or nothing but another group included; the leaves keep their counts, the class of a tree is the "
+          "multiset of totals the check's own counter gets for it (leaf count x the multipliers of all enclosing "
+          "groups, exact Fractions); members = the flat spelling of the totals, then every tree as a nested list, "
+          "as operators m*(f + n*(g + h)), as operators with .atoms / .hill / str() of every operand read first, "
+          "and (stated subset) printed and parsed.  "
+          "The expected composition of every member of every block is the check's own count of what it built, "
+          "never the library's .atoms: a member whose .atoms differ from it although its structure, counted by "
+          "the check's own counter, denotes the class is a violation of its own (atoms-differ-from-structure), "
+          "and the counts listed in the Hill form are compared with the expected composition directly.  "
           "Atom counts are compared with the atoms as OBJECTS (an equal-looking atom of another table is another "
           "atom).  Distinct = distinct (class, table, member spelling).  Non-trivial = "
           "a member of a class with >= 2 distinct atoms (the sort has something to order)."),
@@ -120,7 +146,17 @@ META = dict(
                "permutation; check (e) (the string written in the order of the Hill form) for every class of n <= 2 and "
                "for the n = 3 classes with counts all 1 or {2, 1, 0.5}.  SPECIAL: n <= 3 on three tables; n <= 2 as "
                "MAIN n <= 2; n = 3 every permutation flat as struct and parsed, arith, dict, derived, check (e): complete "
-               "(no groupings).  SPECIAL-COUNTS and TABLES: n <= 2 on three tables, everything as MAIN n <= 2"),
+               "(no groupings).  SPECIAL-COUNTS and TABLES: n <= 2 on three tables, everything as MAIN n <= 2.  "
+               "NESTED (every tree of mc.ref.hill.nestings, multipliers {1, 2, 3, 0.5} at every level, as nested list + "
+               "operators + observed operators): one leaf: 21 spellings x 3 counts, depth <= 3 (85 trees each); two "
+               "leaves: every sequence of two leaves over {C, H, D, O[18], Fe[56]{2+}} x 3 counts (225) and "
+               "Fe[56]{2+}2 Cl{-}0.5, depth <= 2 (557 trees each); the three leaf pairs C H2, D0.5 D, Fe[56]{2+}2 "
+               "Cl{-}0.5 at depth 3 (8896 trees each); the three leaf triples C H2 O[18]0.5, H D2 H0.5, Fe[56]{2+}2 "
+               "Cl{-} Fe[56]{2+} at depth <= 2 (14809 trees each); the two leaf quadruples C H2 O0.5 D, H2 O H "
+               "O[18]0.5 at depth <= 3 with at least two nodes in every group (505 trees each: the trees operators "
+               "build without collapsing).  Also parsed: one leaf: depth <= 2 all, depth 3 for the five spellings; "
+               "two leaves depth <= 2: the three named pairs; the deep pairs and the triples: the trees whose "
+               "multipliers are all 2 or 0.5; the quadruples: all"),
         thorough=("MAIN: classes of n <= 4 entries.  n <= 3: struct (every permutation x all groupings), dict, arith, derived complete; "
                   "parse: n <= 2 complete, n = 3 every permutation flat for every class, every permutation x every "
                   "grouping for all-ones classes, every class once in Hill order.  n = 4: struct flat x every "
@@ -128,7 +164,14 @@ META = dict(
                   "for all-ones classes; arith and the Hill-order string for all-ones classes and classes with counts "
                   "{2, 1, 1, 0.5}; parse for all-ones classes: every permutation flat, every single-level grouping of "
                   "the first permutation; no derived members.  SPECIAL: n <= 4 on three tables, n = 4 like n = 3.  "
-                  "SPECIAL-COUNTS and TABLES as in the quick tier")),
+                  "SPECIAL-COUNTS and TABLES as in the quick tier.  NESTED: one leaf depth <= 4 (341 trees each), all "
+                  "parsed; two leaves: the same 226 sequences at depth <= 2, and at depth 3 (8896 trees each) every "
+                  "sequence of two leaves over {C, D} x 3 counts (36) and the three named pairs; parsed: the three "
+                  "named pairs all, the others the trees with multipliers 2 / 0.5; three leaves: C, H, D with the "
+                  "six arrangements of the counts 1, 2, 0.5 and the three named triples at depth <= 2 (14809 trees "
+                  "each), C H2 O[18]0.5 also at depth 3 with multipliers {2, 3, 0.5} (126 144 trees); four leaves "
+                  "C H2 O0.5 D at depth <= 2 with multipliers {2, 3, 0.5} (69 115 trees); parsed: the trees with "
+                  "multipliers 2 / 0.5; the quadruples without single-node groups as in the quick tier")),
     assumptions=[
         "'alphabetically by symbol' is read literally: the symbol of an atom is what it is written with, so D and T "
         "(= H[2], H[3], and their ions) are neither carbon nor hydrogen but 'other atoms' filed under 'D' and 'T': "
@@ -146,7 +189,14 @@ META = dict(
         "Hill's refinement 'without carbon everything is alphabetical' is not what the statement says (C first, H "
         "second, unconditionally)",
         "equality is Formula.__eq__ as documented (structure equality), evaluated in both directions",
-        "counts are dyadic rationals, so regrouped totals are exact",
+        "counts are dyadic rationals, so regrouped totals are exact; in the NESTED block the leaves keep their "
+        "counts and the totals are products of them with multipliers from {1, 2, 3, 0.5}: small integers times "
+        "powers of two, exact in binary floating point in any order of multiplication and addition (the check "
+        "computes them as Fractions and refuses a total that is not a float); the comparison still allows 1e-12 relative",
+        "a formula's .atoms is part of 'the same atom counts': the statement's counts are the counts of the atoms "
+        "the formula is made of, so a formula whose structure (as a nested sequence of (count, atom or sequence), "
+        "the documented representation) denotes one composition while .atoms reports another breaks the first "
+        "clause whether or not the Hill form repeats the error",
         "one atom beyond the design's list (C[9]) so that mass numbers of different width occur in one element",
         "reading .hill and constructing formula(d) / formula(f) are observations: the composition of f and the "
         "content of d (atoms as objects, counts) afterwards are what they were (order inside d, memoised attributes "
@@ -159,7 +209,8 @@ META = dict(
                 "its own Hill form and with the parsed string written in that order, on the public table and - for "
                 "the blocks that say so - on two private tables in the same process; nothing is claimed for atoms "
                 "outside the alphabets or larger formulas"),
-    level_note="trusted: mc.ref.hill (order rules, grouping generator, printer), Formula.atoms, identity of atom objects",
+    level_note=("trusted: mc.ref.hill (order rules, grouping and nesting generators, own counter, printer), identity of "
+                "atom objects, Formula.structure as the representation of a formula (read only to attribute a wrong count)"),
 )
 
 
@@ -255,6 +306,28 @@ def _tree_struct(E, tree):
     return [(c, _tree_struct(E, x) if isinstance(x, list) else E.atom[x]) for c, x in tree]
 
 
+def _tree_arith(E, tree, observe):
+    """The tree spelled with operators: a group [m, sub] is m*(sum of its nodes), a leaf [c, a] is c*formula(a).
+    observe: everything that could be memoised on an intermediate is read before it is used as an operand."""
+    F, f = E.formula, None
+    for c, x in tree:
+        g = _tree_arith(E, x, observe) if isinstance(x, list) else F(E.atom[x])
+        if observe:
+            g.atoms; g.hill; str(g)
+        g = c * g
+        if observe:
+            g.atoms; g.hill; str(g)
+        f = g if f is None else f + g
+    if observe:
+        f.atoms; f.hill; str(f)
+    return f
+
+
+def _tree_arith_code(E, tree):
+    return " + ".join("%r*%s" % (c, "(%s)" % _tree_arith_code(E, x) if isinstance(x, list)
+                                 else "formula(%s)" % E.pyname(x)) for c, x in tree)
+
+
 def _tree_code(E, tree):
     return "[" + ", ".join("(%r, %s)" % (c, _tree_code(E, x) if isinstance(x, list) else E.pyname(x))
                            for c, x in tree) + "]"
@@ -311,6 +384,8 @@ def build(E, spec):
         if spec[4] == "observed":
             f.hill; str(f)
         return f.replace(E.atom[xtok], E.atom[seq[i][0]])
+    if kind == "arith" and spec[1] in ("tree", "tree-observed"):
+        return _tree_arith(E, spec[2], spec[1] == "tree-observed")
     if kind == "arith":
         how, seq = spec[1], spec[2]
         if how == "add":
@@ -365,6 +440,10 @@ def code(E, spec):
             inner = "observed(%s)" % inner
         return "%s.replace(%s, %s)" % (inner, E.pyname(xtok), E.pyname(seq[i][0]))
     how, seq = spec[1], spec[2]
+    if how == "tree":
+        return _tree_arith_code(E, seq)
+    if how == "tree-observed":
+        return "tree_observed(%s)" % _tree_code(E, seq)
     if how == "add":
         return " + ".join("%r*formula(%s)" % (c, E.pyname(t)) for t, c in seq)
     if how == "iadd":
@@ -379,6 +458,9 @@ PRELUDE = ("import periodictable as pt\nfrom periodictable import formula\n"
            "def twice_observed(parts):\n    f = None\n    for c, a in parts:\n        a = formula(a); a.hill; str(a)\n"
            "        g = c*a; g.hill; str(g)\n        f = g if f is None else f + g\n        f.hill; str(f)\n    return 2*f\n"
            "def observed(f):\n    f.hill; str(f); f.atoms\n    return f\n"
+           "def tree_observed(tree):\n    # m*(... + ...) for every group, c*formula(atom) for every leaf; every operand is looked at first\n"
+           "    f = None\n    for c, x in tree:\n        g = observed(tree_observed(x) if isinstance(x, list) else formula(x))\n"
+           "        g = observed(c*g)\n        f = g if f is None else f + g\n    return observed(f)\n"
            "def reused_dict(first, second):\n    d = dict(first); formula(d).hill\n    d.clear(); d.update(second)\n"
            "    return formula(d)\n")
 
@@ -474,6 +556,24 @@ def _same_atoms(got, want):
     if set(g) != set(w):
         return False
     return all(close(g[k], w[k], 1e-12, 0) for k in w)
+
+
+def _own_count(f):
+    """{atom: count} of the library's structure of f by the check's own counter (mc.ref.hill.totals), or
+    None if the structure is not a nested sequence of (number, atom or sequence)."""
+    try:
+        return dict((a, float(q)) for a, q in R.totals(f.structure).items())
+    except Exception:
+        return None
+
+
+def _shape(s):
+    """Input class of a structure for the signature of a counting defect."""
+    try:
+        d = R.depth(s)
+    except Exception:
+        return "unreadable"
+    return "flat" if d == 0 else "groups" if d == 1 else "groups-inside-groups"
 
 
 def _atoms_key(d):
@@ -587,6 +687,15 @@ class ClassCheck(object):
             acc.count("members_not_built")
             return
         if not _same_atoms(A, self.want):
+            # self.want is the check's own count of what it built (exact, from the class).  Whose fault?  The
+            # library's structure is counted with the check's own counter: if THAT denotes the class, the
+            # constructor did its work and the formula's count of its own structure is wrong
+            S = _own_count(f)
+            if S is not None and _same_atoms(S, self.want):
+                self.viol("atoms-differ-from-structure:%s%s" % (_shape(f.structure), self._cause(A, self.want)),
+                          [spec], _show_atoms(self.want), _show_atoms(A),
+                          asserts=[self.SAME, "print(f0.atoms)", "assert same(f0.atoms, %s)" % self.want_code()])
+                return
             route = ROUTES.get(spec[0])
             if route and self._inner_ok(spec):
                 # formula(dict) is the constructor of Hill forms, formula(f) and f.replace() hand its atoms on:
@@ -633,6 +742,14 @@ class ClassCheck(object):
             ids = [id(x) for c, x in hs]
             if len(set(ids)) != len(ids) or any(i not in E.desc for i in ids):
                 self.viol("hill-repeats-an-atom", [spec], "each atom once", repr(hs))
+                return
+            # (a') the counts as they stand in the Hill form, against the check's own count of the class
+            listed = dict((x, c) for c, x in hs)
+            if not _same_atoms(listed, self.want):
+                self.viol("hill-lists-other-counts-than-the-formula-has" + self._cause(listed, self.want), [spec],
+                          _show_atoms(self.want), repr(hs),
+                          asserts=[self.SAME, "assert same(dict((a, c) for c, a in f0.hill.structure), %s)"
+                                   % self.want_code()])
                 return
             bad = R.order_violation([E.desc[i] for i in ids])
             if bad:
@@ -798,6 +915,163 @@ def check_class(E, entries, acc, tier, block="main", tables_before=()):
     return cc
 
 
+# ------------------------------------------------------------------ nested groups
+# Groups inside groups, with a multiplier at every level.  The leaves keep their counts, so the totals are
+# whatever the multipliers make of them: the class of a tree is the multiset the check's OWN counter
+# (mc.ref.hill.totals: leaf count x the multipliers of all enclosing groups, exact Fractions) gets for it.
+NEST_MULTS = (1, 2, 3, 0.5)
+NEST_MULTS_NOT_1 = (2, 3, 0.5)
+NEST_TOKENS = ("C", "H", "D", "O[18]", "Fe[56]{2+}")
+# leaves for the large sets of shapes: different atoms / one atom in several groups / ions and isotopes
+NEST_LEAVES = {
+    2: [[("C", 1), ("H", 2)], [("D", 0.5), ("D", 1)], [("Fe[56]{2+}", 2), ("Cl{-}", 0.5)]],
+    3: [[("C", 1), ("H", 2), ("O[18]", 0.5)], [("H", 1), ("D", 2), ("H", 0.5)],
+        [("Fe[56]{2+}", 2), ("Cl{-}", 1), ("Fe[56]{2+}", 1)]],
+    4: [[("C", 1), ("H", 2), ("O", 0.5), ("D", 1)], [("H", 2), ("O", 1), ("H", 1), ("O[18]", 0.5)]],
+}
+
+
+def _fam(name, leaves, depth, shards, parse, singletons=True, only_deepest=False, mults=NEST_MULTS):
+    return dict(name=name, leaves=leaves, depth=depth, shards=shards, parse=parse, singletons=singletons,
+                only_deepest=only_deepest, mults=mults)
+
+
+PARSE_MULTS = (2, 0.5)
+
+
+def nested_families(tier):
+    """The bound of the block (META.bound describes it).  Per family: the leaf sequences, the nesting depth,
+    whether a group may hold a single node, whether only the trees of exactly that depth are taken (the
+    shallower ones belong to another family), and which trees are ALSO printed and parsed (parsing costs
+    twenty times as much as the other three spellings together):
+        all      every tree
+        shallow  trees of depth <= 2, and the deeper ones over NEST_TOKENS
+        fixed    the leaf sequences of NEST_LEAVES: every tree; the others: as `mults`
+        mults    the trees whose multipliers are all in PARSE_MULTS"""
+    quick = tier == "quick"
+    types = [(t, c) for t in NEST_TOKENS for c in COUNTS]
+    one = [[(a[0], c)] for a in ALPHABET for c in COUNTS]
+    pairs = [list(p) for p in itertools.product(types, repeat=2)]
+    pairs += [l for l in NEST_LEAVES[2] if l not in pairs]
+    if quick:
+        return [_fam("one-leaf", one, 3, 2, "shallow"),
+                _fam("two-leaves", pairs, 2, 25, "fixed-only"),
+                _fam("two-leaves-deep", NEST_LEAVES[2], 3, 6, "mults", only_deepest=True),
+                _fam("three-leaves", NEST_LEAVES[3], 2, 9, "mults"),
+                _fam("four-leaves-no-singletons", NEST_LEAVES[4], 3, 1, "all", singletons=False)]
+    # the large sets of shapes of the thorough tier leave the multiplier 1 out (NEST_MULTS_NOT_1): it is the one
+    # that changes no count, and it is at every level of the smaller families
+    deep_pairs = [[(t, a), (u, b)] for t in ("C", "D") for a in COUNTS for u in ("C", "D") for b in COUNTS]
+    deep_pairs += [l for l in NEST_LEAVES[2] if l not in deep_pairs]
+    triples = [[("C", a), ("H", b), ("D", c)] for a, b, c in itertools.permutations(COUNTS)]
+    return [_fam("one-leaf", one, 4, 7, "all"),
+            _fam("two-leaves", pairs, 2, 10, "fixed"),
+            _fam("two-leaves-deep", deep_pairs, 3, 38, "fixed", only_deepest=True),
+            _fam("three-leaves", triples + NEST_LEAVES[3], 2, 18, "mults"),
+            _fam("three-leaves-deep", NEST_LEAVES[3][:1], 3, 16, "mults", only_deepest=True, mults=NEST_MULTS_NOT_1),
+            _fam("four-leaves", NEST_LEAVES[4][:1], 2, 12, "mults", mults=NEST_MULTS_NOT_1),
+            _fam("four-leaves-no-singletons", NEST_LEAVES[4], 3, 1, "all", singletons=False)]
+
+
+def _tree_mults(tree, out):
+    for c, x in tree:
+        if isinstance(x, list):
+            out.add(c)
+            _tree_mults(x, out)
+    return out
+
+
+def _parsed_too(fam, leaves, tree, d):
+    rule = fam["parse"]
+    if rule == "all":
+        return True
+    if rule == "shallow":
+        return d <= 2 or all(t in NEST_TOKENS for t, c in leaves)
+    if rule in ("fixed", "fixed-only") and leaves in NEST_LEAVES.get(len(leaves), []):
+        return True
+    if rule == "fixed-only":
+        return False
+    return _tree_mults(tree, set()) <= set(PARSE_MULTS)
+
+
+def check_nested(E, fam, leaves, trees, acc, tier):
+    """trees: nestings of `leaves`.  They are sorted into classes by their own totals; a class starts with
+    the flat spelling of its totals (the reference of canonicity), then every tree of the class as a nested
+    list, as a parsed string, as operators m*(f + g) and as operators with every operand observed first."""
+    classes = {}
+    leaves = [tuple(l) for l in leaves]
+    for tree in trees:
+        d = R.depth(tree)
+        if fam["only_deepest"] and d != fam["depth"]:
+            continue
+        tot = {}
+        for t, q in R.totals(tree).items():
+            t = E.first_token[id(E.atom[t])]
+            tot[t] = tot.get(t, 0) + q
+        try:
+            entries = [(t, R.exact_float(q)) for t, q in tot.items()]
+        except ValueError as e:
+            raise MachineryError("nested alphabet: %s" % e)
+        key = tuple(entries)
+        cc = classes.get(key)
+        k = 0
+        if cc is None:
+            cc = classes[key] = ClassCheck(E, entries, acc)
+            cc.block, cc.tier, cc.broken = "nested", tier, False
+            acc.count("classes")
+            acc.count("classes_nested")
+            v = acc.vcount
+            cc.member(["struct", [[c, t] for t, c in entries]])
+            k += 1
+            cc.broken = acc.vcount != v
+        if not cc.broken:
+            specs = [["struct", tree], ["arith", "tree", tree], ["arith", "tree-observed", tree]]
+            if _parsed_too(fam, leaves, tree, d):
+                specs.append(["parse", R.text(tree, lambda t: t)])
+                acc.count("nested_trees_parsed")
+            for spec in specs:
+                v = acc.vcount
+                cc.member(spec)
+                k += 1
+                if acc.vcount != v:
+                    cc.broken = True     # one report per class
+                    break
+            acc.outcome("nesting-depth:%d" % d)
+            acc.count("nested_trees")
+        acc.transitions += k
+        if cc.distinct_atoms >= 2:
+            acc.nontrivial += k
+    return classes
+
+
+def _nested_shard(args):
+    tier, fi, idx, nshards = args
+    fam = nested_families(tier)[fi]
+    name, leafseqs, depth, singletons = fam["name"], fam["leaves"], fam["depth"], fam["singletons"]
+    acc = Acc()
+    E = env("public")
+    whole = len(leafseqs) >= nshards       # enough leaf sequences: a shard takes whole ones
+    for li, leaves in enumerate(leafseqs):
+        if whole and li % nshards != idx:
+            continue
+        trees = R.nestings(leaves, fam["mults"], depth, singletons)
+        if not whole:
+            trees = itertools.islice(trees, idx, None, nshards)
+        classes = check_nested(E, fam, leaves, trees, acc, tier)
+        acc.count("nested_leaf_sequences_" + name, 1 if whole or idx == 0 else 0)
+        if li % 40 == 0 and idx == 0 and classes:
+            cc = list(classes.values())[-1]
+            acc.sample(dict(block="nested", family=name, leaves=[list(x) for x in leaves], depth=depth,
+                            totals=[list(e) for e in cc.entries], hill=cc.h0_str))
+        if any(cc.skipped for cc in classes.values()):
+            acc.count("classes_with_skipped_members", sum(1 for cc in classes.values() if cc.skipped))
+    return acc
+
+
+def _job(args):
+    return _nested_shard(args[1:]) if args[0] == "nested" else _shard(args)
+
+
 BLOCKS = {
     # block: (alphabet, counts, tables)
     "main": (ALPHABET, COUNTS, False),
@@ -855,10 +1129,13 @@ def run(ctx):
             nsh = SHARDS[block][n]
             for idx in range(nsh):
                 jobs.append((ctx.tier, block, n, idx, nsh))
+    for fi, fam in enumerate(nested_families(ctx.tier)):
+        for idx in range(fam["shards"]):
+            jobs.append(("nested", ctx.tier, fi, idx, fam["shards"]))
     jobs = rotate(jobs, ctx.seed)
     # large shards first
-    jobs.sort(key=lambda j: -j[2])
-    ctx.pmap(_shard, jobs)
+    jobs.sort(key=lambda j: -(2.5 if j[0] == "nested" else j[2]))
+    ctx.pmap(_job, jobs)
     acc = ctx.acc
     acc.info["max_entries_completed"] = nmax
     skipped = acc.info.get("members_not_in_class", 0) + acc.info.get("members_not_built", 0)
